@@ -58,6 +58,19 @@ CondHistClauses(r) ==
     <<"Compared", r.nev = 3 * NEval(r.steps)>>
   >>
 
+(* "conddtype" records: one case of ParamRoutingOps!DtypeCases - the conditioning values      *)
+(* 100, 200, 300 (scalar kinds: 300) in a narrow type, every parameter a + b x^2 or a + b x^-1;  *)
+(* tplrel against the fresh template at the values computed in double precision, vecrel against  *)
+(* the call with one element of the container at a time                                          *)
+CondDtypeClauses(r) ==
+  IF r.exc # "" THEN << <<"UnexpectedException", FALSE>> >>
+  ELSE <<
+    <<"ResultShape", r.shapeok>>,
+    <<"CondEqualsTemplateAtValues", r.tplrel <= CondTolE15>>,
+    <<"VectorisedEqualsPointwise", r.vecrel <= CondTolE15>>,
+    <<"Compared", r.ncmp >= 1>>
+  >>
+
 Idx(kind) == {i \in 1..Len(TraceLog) : TraceLog[i].kind = kind}
 CondSeen == {<<TraceLog[i].fam, TraceLog[i].D, TraceLog[i].chain, TraceLog[i].shape,
                TraceLog[i].method>> : i \in Idx("cond")}
@@ -65,10 +78,13 @@ HistSeen == {<<TraceLog[i].depth, TraceLog[i].steps>> : i \in Idx("condhist")}
 SummaryClauses(r) ==
   << <<"CondCoverage", CondSeen = CondCases /\ Cardinality(Idx("cond")) = r.fullreps * Cardinality(CondCases)
                                + r.partreps * Cardinality({cc \in CondCases : cc[3] \in QuickIntChains})>>,
-     <<"HistoryCoverage", HistSeen = MemoHistoryCases(4)>> >>
+     <<"HistoryCoverage", HistSeen = MemoHistoryCases(4)>>,
+     <<"DtypeCoverage", {<<TraceLog[i].fam, TraceLog[i].gkind, TraceLog[i].fn, TraceLog[i].method>> :
+                           i \in Idx("conddtype")} = DtypeCases>> >>
 
 Clauses(r) == CASE r.kind = "cond" -> CondClauses(r)
                 [] r.kind = "condhist" -> CondHistClauses(r)
+                [] r.kind = "conddtype" -> CondDtypeClauses(r)
                 [] r.kind = "summary" -> SummaryClauses(r)
 
 Verdict(r) == Failing(Clauses(r))
